@@ -707,6 +707,26 @@ class Engine:
         st[('le', dst, src)] = 1
         st[('le', src, dst)] = 1
 
+    def cursor_at_end(self, st, dst, init):
+        """dst = s + strlen(s): the position of the terminating NUL of the text at cursor s - nothing non-NUL lies ahead, s <= dst, and
+        nothing is known about the byte in front of it (the text may be empty)"""
+        tu = self.tu
+        e = tu.strip(init, casts=True)
+        if e is None or e.get('kind') != 'BinaryOperator' or e.get('opcode') != '+':
+            return False
+        for a, b in (tu.kids(e), tu.kids(e)[::-1]):
+            v, _ = self.decl_of(a)
+            c = tu.strip(b, casts=True)
+            if v is not None and ('c', v) in st and c is not None and c.get('kind') == 'CallExpr' and \
+                    tu.sd(c).get('q', '').split('::')[-1] == 'strlen' and tu.call_parts(c)[2] and self.decl_of(tu.call_parts(c)[2][0])[0] == v:
+                st[('c', dst)] = (0, 0, 0, 0, ())
+                st.pop(('null', dst), None)
+                self.le_copy(st, dst, v)
+                for k in [k for k in st if isinstance(k, tuple) and k[0] in ('le', 'lt') and k[1] == dst and k[2] != dst]:
+                    del st[k]
+                return True
+        return False
+
     def cursor_result(self, st, dst, init):
         """dst = f(...), f a function that returns a position of the scan (summarised as ('P', state, base)): dst gets that state and is
         not in front of `base`"""
@@ -1013,6 +1033,8 @@ class Engine:
                         pass
                     elif eng.cursor_result(st, v, ks[1]):
                         moved(st)
+                    elif eng.cursor_at_end(st, v, ks[1]):
+                        moved(st)
                     else:
                         st[('c', v)] = (0, 0, 0, 0, ())
                         eng.le_forget(st, v)
@@ -1039,6 +1061,8 @@ class Engine:
                         elif init is not None and eng.search_result(st, vd['id'], init):
                             pass
                         elif init is not None and eng.cursor_result(st, vd['id'], init):
+                            pass
+                        elif init is not None and eng.cursor_at_end(st, vd['id'], init):
                             pass
                         else:
                             lit = tu.strip(init, casts=True) if init is not None else None
@@ -1599,6 +1623,39 @@ def check_readxml(ctx, tu):
                           'be sought (pipe, terminal, process substitution) it is -1, the buffer gets numBytes + 1 == 0 bytes, fread is asked for '
                           'SIZE_MAX bytes and the parser is entered on a null pointer', tu.loc(sized),
                           key='%s|%s|readXML|size-unchecked' % (R3, XML_FILE))
+    if not from_ftell:
+        # the size taken from a stat structure: which call filled it?  lstat() describes a symbolic link itself, not the file fopen() opened
+        stvars = set()
+        for x in tu.walk(tu.body(builder)):
+            tgt = None
+            if x.get('kind') == 'VarDecl' and x['id'] == sizevar and tu.kids(x):
+                tgt = tu.kids(x)[-1]
+            elif x.get('kind') == 'BinaryOperator' and x.get('opcode') == '=' and eng0.decl_of(tu.kids(x)[0])[0] == sizevar:
+                tgt = tu.kids(x)[1]
+            if tgt is None:
+                continue
+            for y in tu.walk(tgt):
+                if y.get('kind') == 'MemberExpr' and y.get('name') == 'st_size' and tu.kids(y):
+                    d = tu.ref_decl(tu.kids(y)[0])
+                    if d:
+                        stvars.add(d)
+        for x in tu.walk(tu.body(builder)):
+            if x.get('kind') != 'CallExpr' or not stvars:
+                continue
+            q = tu.sd(x).get('q', '').split('::')[-1]
+            args = tu.call_parts(x)[2]
+            if q in ('lstat', 'lstat64', 'stat', 'stat64', 'fstat', 'fstat64', 'fstatat') and args and \
+                    any(y.get('kind') == 'DeclRefExpr' and tu.ref_decl(y) in stvars for a in args for y in tu.walk(a)):
+                if q.startswith('lstat'):
+                    ctx.violation(R3, inst + ': size', 'the size that sizes the buffer and bounds fread comes from `%s`, which describes a symbolic '
+                                  'link itself (st_size = length of the link text), while fopen() followed the link: a document opened through '
+                                  'a symlink is cut after that many bytes - a valid document is rejected or a truncated tree is returned' %
+                                  tu.show(x)[:50], tu.loc(x), key='%s|%s|readXML|size-of-link-not-file' % (R3, XML_FILE))
+                elif q.startswith('fstat'):
+                    ctx.ok(R3, inst + ': size', 'size taken with fstat() from the opened stream', tu.loc(x))
+                else:
+                    ctx.ok(R3, inst + ': size', 'not decided here (size taken with %s() by name: follows links, but the name can be '
+                           're-bound between the two calls)' % q, tu.loc(x), nontrivial=False)
     nread = nparse = 0
     for fn in (builder, f) if builder['id'] != f['id'] else (f,):
         for b, i, n in tu.cfg(fn).stmts():
@@ -3558,6 +3615,27 @@ def check_file_handle(ctx, tu):
             # (b) normal exits: fclose on every path to a return
             g = tu.cfg(f)
             bad = []
+            twice = []
+            # closed inside the try block, then a construct that can throw, then closed again by the handler
+            for t in _walk_no_lambda(tu, body):
+                if t.get('kind') != 'CXXTryStmt' or not tu.kids(t):
+                    continue
+                blk = tu.kids(t)[0]
+                handlers = [h for h in tu.kids(t)[1:] if any(closes(y) for y in tu.walk(h))]
+                if not handlers:
+                    continue
+                closed_at = None
+                for y in _walk_no_lambda(tu, blk):
+                    if closes(y):
+                        closed_at = y
+                    elif closed_at is not None:
+                        thrower = y.get('kind') == 'CXXThrowExpr' and tu.kids(y)
+                        if y.get('kind') in CALLS:
+                            cf = tu.callee_fn(y)
+                            thrower = cf is not None and cf['id'] in ex.fns and ex.may[cf['id']]
+                        if thrower:
+                            twice.append(y)
+                            break
             if g is not None:
                 def transfer(blk, i, el, st):
                     if el[0] != 'S':
@@ -3568,12 +3646,20 @@ def check_file_handle(ctx, tu):
                     if x is vd or (x.get('kind') == 'DeclStmt' and any(y is vd for y in tu.kids(x))):
                         return ['open']
                     if closes(x):
+                        if st == 'closed':
+                            twice.append(x)
                         return ['closed']
                     if x.get('kind') == 'ReturnStmt' and st == 'open':
                         bad.append(x)
                     return [st]
                 g.explore(['none'], transfer, None)
-            if bad:
+            if twice:
+                ctx.violation(R, inst, '`%s` is closed a second time: it was already closed when `%s` is reached, which %s - fclose on a closed '
+                              'stream is undefined behaviour (double free of the FILE object: abort, or a stream another thread has just '
+                              'opened is closed)' % (vd.get('name'), tu.show(twice[0])[:50],
+                                                     'can throw into a handler that closes it again' if not closes(twice[0]) else 'closes it again'),
+                              tu.loc(twice[0]), key=key + 'closed-twice')
+            elif bad:
                 ctx.violation(R, inst, 'a return is reached with `%s` still open (no fclose on that path)' % vd.get('name'), tu.loc(bad[0]),
                               key=key + 'not-closed-on-return')
             else:
